@@ -9,14 +9,15 @@ import (
 	"go/ast"
 	"go/token"
 	"go/types"
+	"sort"
 	"strings"
 )
 
 func init() {
 	register(&Rule{ID: "R7", Title: "announce-before-start: forked flows are started only after the FlowTrace that lists them", Min: 2, Run: ruleR7})
-	register(&Rule{ID: "R8", Title: "terminal-trace-last: nothing is sent by a token after its termination / cancellation trace", Min: 5, Run: ruleR8})
+	register(&Rule{ID: "R8", Title: "terminal-trace-last: nothing is sent by a token after its termination / cancellation trace", Min: 3, Run: ruleR8})
 	register(&Rule{ID: "R9", Title: "leave-then-visit: LeaveTrace, then the move, then VisitTrace; a new token's first trace after NewFlowTrace is its VisitTrace", Min: 2, Run: ruleR9})
-	register(&Rule{ID: "R10", Title: "token-exit-trace: every exit of the token goroutine is preceded by a terminal trace", Min: 5, Run: ruleR10})
+	register(&Rule{ID: "R10", Title: "token-exit-trace: every exit of the token goroutine is preceded by a terminal trace", Min: 3, Run: ruleR10})
 	register(&Rule{ID: "R3d", Title: "join counter reset: a counter tested by the release condition is re-initialised in the releasing branch", Min: 1, Run: ruleR3d})
 }
 
@@ -45,6 +46,62 @@ func tokenRoots(p *Prog) []*FuncInfo {
 	return out
 }
 
+// sendsIndex: for every declared function, the trace types it may send synchronously (its own body,
+// literals it runs synchronously, and same-package static callees up to depth 3; goroutines excluded).
+var sendsIndexCache = map[*Prog]map[*types.Func]map[string]bool{}
+var theProg *Prog
+
+func sendsIndex(p *Prog) map[*types.Func]map[string]bool {
+	if ix, ok := sendsIndexCache[p]; ok {
+		return ix
+	}
+	ix := map[*types.Func]map[string]bool{}
+	sendsIndexCache[p] = ix
+	var collect func(f *FuncInfo, into map[string]bool, depth int, seen map[*FuncInfo]bool)
+	collect = func(f *FuncInfo, into map[string]bool, depth int, seen map[*FuncInfo]bool) {
+		if f == nil || seen[f] || depth > 3 {
+			return
+		}
+		seen[f] = true
+		in := info(f)
+		inspectNoLit(f.Body, func(m ast.Node) bool {
+			if _, isGo := m.(*ast.GoStmt); isGo {
+				return false
+			}
+			call, ok := m.(*ast.CallExpr)
+			if !ok {
+				return true
+			}
+			if t, ok := sentTraceType(in, call); ok {
+				into[t] = true
+				return true
+			}
+			if lf := syncLitOfCall(p, in, call); lf != nil {
+				collect(lf, into, depth+1, seen)
+			}
+			if fn := callee(in, call); fn != nil {
+				if _, isIface := recvUnderlyingInterface(fn); !isIface {
+					if cf := p.byObj[fn]; cf != nil && cf.Pkg == f.Pkg {
+						collect(cf, into, depth+1, seen)
+					}
+				}
+			}
+			return true
+		})
+	}
+	for _, f := range p.Funcs {
+		if f.Obj == nil {
+			continue
+		}
+		m := map[string]bool{}
+		collect(f, m, 0, map[*FuncInfo]bool{})
+		ix[f.Obj] = m
+	}
+	return ix
+}
+
+// nodeSendsTrace: CFG node n sends a trace (of one of the named types, if any are given) — directly,
+// or through a statically called same-package function that may send it.
 func nodeSendsTrace(in *types.Info, n ast.Node, names ...string) (string, bool) {
 	if n == nil {
 		return "", false
@@ -52,14 +109,37 @@ func nodeSendsTrace(in *types.Info, n ast.Node, names ...string) (string, bool) 
 	if _, isGo := n.(*ast.GoStmt); isGo {
 		return "", false
 	}
+	match := func(t string) bool {
+		if len(names) == 0 {
+			return true
+		}
+		for _, nm := range names {
+			if t == nm {
+				return true
+			}
+		}
+		return false
+	}
 	for _, call := range callsIn(n) {
 		if t, ok := sentTraceType(in, call); ok {
-			if len(names) == 0 {
+			if match(t) {
 				return t, true
 			}
-			for _, nm := range names {
-				if t == nm {
-					return t, true
+			continue
+		}
+		if theProg != nil {
+			if fn := callee(in, call); fn != nil {
+				if _, isIface := recvUnderlyingInterface(fn); !isIface {
+					var ts []string
+					for t := range sendsIndex(theProg)[fn] {
+						ts = append(ts, t)
+					}
+					sort.Strings(ts)
+					for _, t := range ts {
+						if match(t) {
+							return t, true
+						}
+					}
 				}
 			}
 		}
@@ -446,26 +526,7 @@ func ruleR3d(c *Ctx) {
 			return true
 		})
 	}
-	// distributors (as in R3reset)
-	distributors := map[*types.Func]bool{}
-	for _, f := range p.Funcs {
-		if f.Obj == nil {
-			continue
-		}
-		in := info(f)
-		inspectNoLit(f.Body, func(m ast.Node) bool {
-			if rs, ok := m.(*ast.RangeStmt); ok {
-				if sl, ok := in.TypeOf(rs.X).Underlying().(*types.Slice); ok && isReplyChan(sl.Elem()) {
-					if id, ok := unparen(rs.X).(*ast.Ident); ok {
-						if v, ok := objOf(in, id).(*types.Var); ok && isParam(f, v) {
-							distributors[f.Obj] = true
-						}
-					}
-				}
-			}
-			return true
-		})
-	}
+	distributors := distributorFuncs(p)
 	for _, f := range p.Funcs {
 		in := info(f)
 		inspectNoLit(f.Body, func(m ast.Node) bool {
